@@ -6,6 +6,8 @@ cd "$(dirname "$0")/.."
 [ -x bin/gsdcheck ] || ./setup.sh >/dev/null
 declare -A PROP=( [revert-D1]=C03 [revert-D2]=C02 [revert-D3]=C04 [revert-D4]=C04 [revert-D5]=C04 [revert-D6]=C05 [revert-D7]=C11 [revert-D8]=C17 )
 out=seeded/RESULTS.md
+ONLY="$*"
+[ -n "$ONLY" ] && out=/tmp/selftest_partial.$$.md
 echo "| seeded change | property | detected by own check | rules that fired |" > $out
 echo "|---|---|---|---|" >> $out
 fail=0
@@ -23,6 +25,8 @@ ls -d seeded/*/ | sed 's|/$||' | while read d; do
   [ -f $d/patch.diff ] || continue
   name=$(basename $d)
   if [ -n "${PROP[$name]:-}" ]; then prop=${PROP[$name]}; else prop=${name%%-*}; fi
+  [ "$prop" = "W2" ] && { t=${name#W2-}; prop=${t%%-*}; }
+  if [ -n "$ONLY" ] && ! echo "$ONLY" | grep -qw "$prop"; then continue; fi
   res=$(MUT_LINES=60 tools/mutant.sh $d/patch.diff $prop 2>&1)
   rules=$(echo "$res" | grep -o "rule=[A-Za-z0-9.]*" | sort -u | sed 's/rule=//' | tr '\n' ' ')
   if echo "$res" | grep -q "^VIOLATION property=$prop"; then det=yes; else det=NO; fi
